@@ -550,6 +550,8 @@ def call(I, f, args, kwargs, node=None):
                 I.spec = saved
         if f.kind in ("ast", "lambda"):
             c = I.ver.contract_for_call(f, I)
+            if c is not None and any(isinstance(a, VNaN) for a in list(args) + list(kwargs.values())):
+                c = None      # contracts are stated over real-valued floats: a nan argument is outside their types -> inline
             if c is not None:
                 return call_contract(I, c, f, args, kwargs)
             if I.spec and f.kind == "ast":
@@ -851,6 +853,14 @@ def isdigit_term(I, e):
     return f(e)
 
 
+def sp_nan(I, args, kw):
+    return VNaN()
+
+
+def sp_is_nan(I, args, kw):
+    return VBool(isinstance(args[0], VNaN))
+
+
 def sp_int_parses(I, args, kw):
     return VBool(int_parse_terms(I, args[0].e)[0])
 
@@ -865,6 +875,8 @@ def bi_float(I, args, kw):
     v = I.force(args[0]) if not I.spec else args[0]
     if is_num(v):
         return VReal(to_real(v))
+    if isinstance(v, VNaN):
+        return v
     if isinstance(v, VStr):
         if I.spec:
             raise Unsupported("float(str) in spec")
@@ -901,6 +913,8 @@ def bi_str(I, args, kw):
 
 def bi_abs(I, args, kw):
     v = I.force(args[0]) if not I.spec else args[0]
+    if isinstance(v, VNaN):
+        return v
     if isinstance(v, VReal):
         return VReal(z3.If(v.e >= 0, v.e, -v.e))
     if isinstance(v, (VInt, VBool)):
@@ -965,7 +979,7 @@ def _isinst(I, v, nm):
         return nm in ("bool", "int")
     if isinstance(v, VInt):
         return nm == "int"
-    if isinstance(v, VReal):
+    if isinstance(v, (VReal, VNaN)):
         return nm == "float"
     if isinstance(v, VStr):
         return nm in ("str",)
@@ -1357,7 +1371,7 @@ def gh_lemma_pigeonhole(I, args, kw):
 
 
 BUILTIN_FUNCS = {
-    "lemma_pigeonhole": gh_lemma_pigeonhole, "int_parses": sp_int_parses, "int_value": sp_int_value,
+    "nan": sp_nan, "is_nan": sp_is_nan, "lemma_pigeonhole": gh_lemma_pigeonhole, "int_parses": sp_int_parses, "int_value": sp_int_value,
     "len": bi_len, "int": bi_int, "float": bi_float, "bool": bi_bool, "str": bi_str, "abs": bi_abs,
     "min": bi_min, "max": bi_max, "isinstance": bi_isinstance, "hasattr": bi_hasattr, "getattr": bi_getattr,
     "setattr": bi_setattr, "callable": bi_callable, "list": bi_list, "tuple": bi_tuple, "dict": bi_dict,
